@@ -45,9 +45,6 @@ func check(w *nlhist.World, step int, op nlhist.Op, st *stats) (string, error) {
 				all = all && have
 				if i < ov.Bit.Len && bit(ov.Bit.B, i) && !have {
 					sg := "C17/bit-set-for-missing-chunk"
-					if i == 0 {
-						sg = sigBit0
-					}
 					return sg, fmt.Errorf("after step %d %+v: file %d availability bit %d (data chunk %s) is set but that chunk is not in the local store (bits %x len %d)", step, op, f.Idx, i, d[:8], ov.Bit.B, ov.Bit.Len)
 				}
 			}
@@ -77,9 +74,6 @@ func check(w *nlhist.World, step int, op nlhist.Op, st *stats) (string, error) {
 			for i, d := range f.Distinct {
 				if _, have := stored[d]; bit(b, i) && !have {
 					sg := "C17/filelist-bit-set-for-missing-chunk"
-					if i == 0 {
-						sg = sigBit0
-					}
 					return sg, fmt.Errorf("after step %d: file list bit %d of file %d set but chunk missing", step, i, f.Idx)
 				}
 			}
